@@ -1,6 +1,7 @@
 """C14 - stub content depends only on the set of traces, not their order or process."""
 import ast
 import io
+import typing
 import json
 import os
 import random
@@ -44,11 +45,13 @@ tuple_family = st.tuples(st.sampled_from([["lit", 1], ["lit", "s"], ["inst", "D1
 tuple_family1 = st.tuples(st.sampled_from([["lit", 1], ["lit", "s"]]), st.integers(1, 6)).map(lambda p: ["tuple", [p[0]] * p[1]])
 record = st.lists(st.tuples(st.sampled_from(["a", "b", "c"]), st.sampled_from([["lit", 0], ["lit", "x"], ["lit", None]])).map(lambda kv: [["lit", kv[0]], kv[1]]),
                   min_size=1, max_size=3, unique_by=lambda kv: kv[0][1]).map(lambda l: ["dict", l])
-value = st.one_of(vals.values(1), vals.values(2), tuple_family, tuple_family, record, record,
+# sibling fields that each hold a dict under the same key: two generated classes with one name
+siblings = st.tuples(record, record).map(lambda p: ["dict", [[["lit", "home"], ["dict", [[["lit", "addr"], p[0]]]]], [["lit", "work"], ["dict", [[["lit", "addr"], p[1]]]]]]])
+value = st.one_of(vals.values(1), vals.values(2), tuple_family, tuple_family, record, record, siblings,
                   st.sampled_from([["inst", "D1"], ["inst", "D2"], ["inst", "DD"], ["inst", "Base"], ["inst", "Mixed"]]))
 trace_spec = st.tuples(st.sampled_from(sorted(FUNCS)), st.lists(value, min_size=2, max_size=2)).map(list)
 # focused sets: one function, every trace drawn from one family (many tuple shapes / many records / many classes at ONE position)
-focused_set = st.tuples(st.sampled_from(sorted(FUNCS)), st.sampled_from([tuple_family, tuple_family1, tuple_family1, record, st.one_of(tuple_family, record),
+focused_set = st.tuples(st.sampled_from(sorted(FUNCS)), st.sampled_from([tuple_family, tuple_family1, tuple_family1, record, siblings, st.one_of(tuple_family, record),
                         st.sampled_from([["inst", c] for c in ["D1", "D2", "DD", "Base", "Mixed", "Other"]] + [["lit", None], ["lit", 1]])])).flatmap(
     lambda p: st.lists(st.lists(p[1], min_size=2, max_size=2), min_size=5, max_size=14).map(lambda vs: [[p[0], v] for v in vs]))
 trace_sets = st.one_of(st.lists(trace_spec, min_size=4, max_size=24), focused_set,
@@ -70,21 +73,47 @@ def make_trace(ts, k):
 
 def canonical(text):
     import fx_target
-    stub = stubread.read_stub(text, {n: v for n, v in vars(fx_target).items() if not n.startswith("__")})
+    import fxh
+    # lenient namespace: C14 is about determinism, not about the stub providing its names (C11 owns that)
+    ns = dict(vars(typing))
+    ns.update(fxh=fxh, fx_target=fx_target)
+    ns.update({n: v for n, v in vars(fx_target).items() if not n.startswith("__")})
+    stub = stubread.read_stub(text, ns)
     if stub["syntax_error"] is not None:
         raise stubread.StubError("syntax", str(stub["syntax_error"]))
+    # when generated classes collide by name (a C11 finding) references stay opaque and the classes are compared as the
+    # ordered sequence in which the stub defines them
+    opaque = bool(stub["dupes"])
     out = {}
     for key, infos in stub["funcs"].items():
         info = infos[0]
         out["/".join(key[0] + (key[1],))] = (tuple(info["decorators"]), info["async"], len(infos),
-                                             tuple(sorted((n, stubread.canon_of(e[1], stub, {})) for n, e in info["args"].items())),
-                                             None if info["returns"] is None else stubread.canon_of(info["returns"][1], stub, {}))
+                                             tuple(sorted((n, stubread.canon_of(e[1], stub, {}, opaque)) for n, e in info["args"].items())),
+                                             None if info["returns"] is None else stubread.canon_of(info["returns"][1], stub, {}, opaque))
     imports = {}
-    for node in ast.parse(text).body:
+    tree = ast.parse(text)
+    for node in tree.body:
         if isinstance(node, ast.ImportFrom):
             imports.setdefault(node.module, set()).update(a.name for a in node.names)
-    classes = {name: stubread.canon_of(__import__("typing").ForwardRef(name), stub, {}) for name in stub["tdclasses"]}
-    return {"funcs": out, "imports": {m: tuple(sorted(v)) for m, v in imports.items()}, "classes": classes}
+    if opaque:
+        seq = []
+        for node in tree.body:
+            if isinstance(node, ast.ClassDef) and node.bases:
+                fields = tuple(sorted((b.target.id, stubread.canon_of(stub["ev"](b.annotation, "typeddict-class-body")[1], stub, {}, True))
+                                      for b in node.body if isinstance(b, ast.AnnAssign)))
+                seq.append((node.name, tuple(ast.unparse(b) for b in node.bases), fields))
+        classes = {"<ordered>": tuple(seq)}
+    else:
+        classes = {name: stubread.canon_of(typing.ForwardRef(name), stub, {}) for name in stub["tdclasses"]}
+    return {"funcs": out, "imports": {m: tuple(sorted(v)) for m, v in imports.items()}, "classes": classes, "opaque": opaque}
+
+
+def only_same_named_class_order(a, b):
+    """the two canonical stubs differ only in the order in which same-named generated classes are defined"""
+    if not (a.get("opaque") and b.get("opaque")) or a["funcs"] != b["funcs"] or a["imports"] != b["imports"]:
+        return False
+    sa, sb = a["classes"]["<ordered>"], b["classes"]["<ordered>"]
+    return sorted(sa, key=repr) == sorted(sb, key=repr) and [c[0] for c in sa] == [c[0] for c in sb]
 
 
 def diff(a, b):
@@ -131,7 +160,10 @@ def in_process(ctx, tspecs, k, rw_name, rnd):
             base, base_text = c, text
         else:
             d = diff(base, c)
-            if d:
+            if d and only_same_named_class_order(base, c):
+                # listed finding (library entry point only): same-named generated classes are emitted in trace order
+                ctx.fail("C14/same-named-generated-classes-in-trace-order", spec, f"presentation {p}: {d[:300]}")
+            elif d:
                 return ctx.fail("C14/stub-depends-on-order-or-duplication", spec, f"presentation {p}: {d}\n--- first\n{base_text[:900]}\n--- other\n{text[:900]}")
 
 
@@ -206,8 +238,16 @@ def shard(ctx):
             # many shapes at ONE position: where union size limits and common-base rewrites (default chain) decide
             sets.append((tspecs, k, "default"))
 
+        @hypothesis.seed(ctx.shard_seed(12))
+        @core.hyp_settings(1 if q else 4, shrink=False)
+        @given(st.lists(st.lists(siblings, min_size=2, max_size=2), min_size=2, max_size=5), st.sampled_from(sorted(FUNCS)), st.sampled_from(["noop", "default"]))
+        def collect_siblings(vss, fname, rw):
+            # TypedDict merging across traces with same-named nested classes (k=3): field and class order must not follow hashing
+            sets.append(([[fname, v] for v in vss], 3, rw))
+
         collect()
         collect_focused()
+        collect_siblings()
         rnd = random.Random(ctx.shard_seed(10))
         for tspecs, k, rw in sets:
             cli_presentations(ctx, tspecs, k, rw, rnd, workdir, [0, 1, 2, 3] if q else [0, 1, 2, 3, 4, 5, 6, 7, 8, 9, 10, 11])
